@@ -50,13 +50,20 @@ def check_two_runs(spec: dict) -> core.CaseResult:
     ex1 = oracles.expect_for(spec, obs)
     findings = oracles.c02_ordering(spec, obs, ex1)
     failed2 = False
-    if obs.second is not None and obs.outcome == 'return':
+    aborted1 = obs.outcome == 'raise' and not obs.timeout
+    if aborted1:
+        findings = []      # an aborted first run is C10's business; here it only sets the scene for the second run
+    if obs.second is not None and (obs.outcome == 'return' or (aborted1 and 'continue_on_failure' in second)):
+        spec2 = spec if 'continue_on_failure' not in second else {**spec, 'lab': {**spec['lab'], 'continue_on_failure': second['continue_on_failure']}}
         ex2 = oracles.expect_second(spec, obs, ex1, second)
         failed2 = any(w.startswith('dep:') for w in ex2.why.values())
-        for f in oracles.c02_ordering(spec, obs.second, ex2):
-            findings.append(core.Finding(f.signature.replace('C02:', 'C02:second-run:'), f.detail))
+        if obs.second.outcome == 'return':
+            for f in oracles.c02_ordering(spec2, obs.second, ex2):
+                findings.append(core.Finding(f.signature.replace('C02:', 'C02:second-run:' + ('after-aborted-run:' if aborted1 else '')), f.detail))
     f = specs.features(spec)
     labels = [f'backend={spec["lab"]["backend"]}', 'two-runs', f'second:same_lab={second.get("same_lab")}'] + (['dependency_fails_only_in_second_run'] if failed2 else [])
+    if aborted1:
+        labels.append('first_run_aborted')
     return dagprop.result(obs, findings, failed2 or f['n_closure'] >= 3, labels, prop='C02')
 
 
@@ -67,6 +74,7 @@ def plan(tier: str) -> list[dict]:
     jobs += [{'engine': 'spawn:fanin', 'n': 7 if q else 120, 'hashseed': i} for i in range(3)]
     jobs += [{'engine': 'fork:fanin', 'n': 25 if q else 400, 'hashseed': 4}]
     jobs += [{'engine': 'two-runs:serial', 'n': 100 if q else 3000, 'hashseed': 5}, {'engine': 'two-runs:fork', 'n': 14 if q else 400, 'hashseed': 6}]
+    jobs += [{'engine': 'after-abort:serial', 'n': 100 if q else 3000, 'hashseed': 7}, {'engine': 'after-abort:fork', 'n': 10 if q else 300, 'hashseed': 0}]
     return list(jobs) + dagprop.exhaustive_jobs(tier, 4)
 
 
@@ -82,6 +90,18 @@ def run_job(rec: core.Recorder, job: dict, seed: int) -> None:
                           specs.dag_spec(max_nodes=7, backends=(b,), fail_modes=['flag:fa', 'flag:fa', 'raise:ValueError'], fail_rate=30,
                                          types=['NN', 'N1', 'Z', 'Z', 'N2'], contexts=False, storages=('local', 'none')),
                           st.booleans(), st.sampled_from([True, True, False]))
+        core.run_hypothesis(rec, eng, strat, check_two_runs, max_examples=job['n'], seed=seed, shrink=(b == 'serial' or rec.tier == 'thorough'))
+        return
+    if eng.startswith('after-abort:'):
+        # run 1 aborts (continue_on_failure=False) while results are still held for unfinished dependents; run 2, a new Lab in the same
+        # process with continue_on_failure=True, re-executes everything with a flag that makes some dependencies fail this time
+        from hypothesis import strategies as st
+        b = eng.split(':')[1]
+        strat = st.builds(lambda sp, bust: {**sp, 'second': {'same_lab': False, 'bust': bust, 'context_extra': {'fa': True}, 'continue_on_failure': True}},
+                          specs.dag_spec(min_nodes=3, max_nodes=7, backends=(b,), fail_modes=['flag:fa', 'flag:fa', 'raise:ValueError'], fail_rate=45,
+                                         types=['NN', 'Z', 'Z', 'N2'], contexts=False, storages=('local', 'none'), continue_on_failure=(False,),
+                                         pre_cache=False, bust=False, req_many=True),
+                          st.sampled_from([True, True, False]))
         core.run_hypothesis(rec, eng, strat, check_two_runs, max_examples=job['n'], seed=seed, shrink=(b == 'serial' or rec.tier == 'thorough'))
         return
     if eng.endswith(':fanin'):
